@@ -53,9 +53,10 @@ Section Run.
   Hypothesis P_merge : forall t e t', P t -> Q (fst e) -> merge_in L t e = Some t' -> P t'.
   Hypothesis P_perm : forall a b, Permutation a b -> P a -> P b.
   Hypothesis P_keys : forall t e, P t -> In e t -> Q (fst e).
-  Hypothesis Q_nil : Q [].
 
-  Definition op_good (o : op) : Prop := match o with ORec kvs _ => Q (mk_attrs (c_filter c) kvs) | _ => True end.
+  (* the keys the history records with satisfy Q (a record without attributes uses the empty map) *)
+  Definition op_good (o : op) : Prop :=
+    match o with ORec kvs _ => Q (mk_attrs (c_filter c) kvs) | ORec0 _ => Q [] | OCollect _ => True end.
 
   Lemma P_merge_all es t t' : P t -> (forall e, In e es -> Q (fst e)) -> merge_all L t es = Some t' -> P t'.
   Proof.
@@ -352,7 +353,7 @@ Section Run.
       + unfold st_record. apply G_record; [assumption|]. rewrite record_total, accepted_counts. reflexivity.
     - unfold st_record0. destruct (record_ref (c_limit c) [] (accepted (c_mono c) v) (s_interval s)) as [t|] eqn:Er.
       + apply IH; [| |assumption].
-        * apply SP_interval; [assumption|]. eapply P_record_ref; [exact (proj1 HSP)|exact Q_nil|exact Er].
+        * apply SP_interval; [assumption|]. eapply P_record_ref; [exact (proj1 HSP)|exact Hg|exact Er].
         * apply G_record; [assumption|]. rewrite (record_ref_total _ _ _ _ _ Er), accepted_counts. reflexivity.
       + (* the empty map equals itself: record_ref cannot fail *)
         exfalso. unfold record_ref in Er. destruct (tfind [] (s_interval s)); [discriminate|].
